@@ -777,6 +777,14 @@ func e6FilteredRootCase(seed uint64, n int) Case {
 			}
 			mirs = append(mirs, startMirror(fmt.Sprintf("subscriber-%d", i), sub.Events(), sub.Ready(), sub.Cache()))
 		}
+		// and one below a FILTERED clone whose filter accepts everything: it has a cache of
+		// its own, fed by the events its parent publishes (deletes included, whatever
+		// version the deleted object carries)
+		if fc, err := pub.CloneWithFilter(kit.TNull().Build()); err == nil {
+			if sub, err := fc.Subscribe(); err == nil {
+				mirs = append(mirs, startMirror("subscriber-below-accept-all-clone", sub.Events(), sub.Ready(), sub.Cache()))
+			}
+		}
 		g.barrier()
 		for _, m := range mirs {
 			m.seed(kit.Snap{})
@@ -794,12 +802,37 @@ func e6FilteredRootCase(seed uint64, n int) Case {
 			}
 			rv := strconv.Itoa(g.nextRV)
 			g.nextRV++
+			if typ == kcacheDelete && rng.Bool() {
+				// a delete that carries the object exactly as it is cached (what a relist that
+				// finds the object gone produces): same version, not a newer one
+				if cur, _ := g.root.Cache().Get("n0", nm); cur != nil {
+					rv, lab = cur.GetResourceVersion(), cur.GetLabels()
+				}
+			}
 			if _, err := g.apply(typ, kit.Pod("n0", nm, rv, lab)); err != nil {
 				r.V("C05", "publish-error", "%v", err)
 				return
 			}
 			if i%20 == 19 {
 				g.barrier()
+			}
+			if i%25 == 24 {
+				// a relist that finds one object gone and the others unchanged
+				cur, _ := g.root.Cache().Reader().List()
+				if len(cur) > 1 {
+					drop := rng.Intn(len(cur))
+					var l []metav1Object
+					for j, o := range cur {
+						if j != drop {
+							l = append(l, o)
+						}
+					}
+					if _, err := g.relist(l); err != nil {
+						r.V("C05", "publish-error", "%v", err)
+						return
+					}
+					r.Add("relist-detected-deletions", 1)
+				}
 			}
 		}
 		g.barrier()
